@@ -32,7 +32,8 @@ type StoreCfg struct {
 	ForceEvict  bool     `json:"ForceEvict"` // a memory soft limit of one byte: breached in every cycle
 	ForceKind   string   `json:"ForceKind"`  // heap | sys
 	JobBelowDEA bool     `json:"JobBelowDEA"`
-	Logger      bool     `json:"Logger"` // attach a logger that accepts every level (call-outs of the backend)
+	DEADefault  bool     `json:"DEADefault"` // DeleteExpiredAfter left unset: the library default of 24 h (= DEA ticks of UnitSec)
+	Logger      bool     `json:"Logger"`     // attach a logger that accepts every level (call-outs of the backend)
 	Collide     bool     `json:"Collide"`
 	Hash        string   `json:"Hash"`   // HashInj | HashColl: the model's hash function
 	Jitter      float64  `json:"Jitter"` // -1 disabled, 0 library default
@@ -94,6 +95,14 @@ func (c StoreCfg) cacheConfig(name string, st cache.StatsTracker, needed *bool) 
 		ItemsCountReportInterval: 1000 * time.Hour,
 		ExpirationJitter:         c.Jitter,
 		CountSoftLimit:           uint64(c.CountLimit),
+	}
+
+	if c.DEADefault {
+		if time.Duration(c.DEA)*u != 24*time.Hour {
+			panic("DEADefault needs DEA ticks of UnitSec to be 24 h")
+		}
+
+		cc.DeleteExpiredAfter = 0
 	}
 
 	// A job interval BELOW DeleteExpiredAfter (the usual production set-up; the janitor goroutine still never fires
